@@ -95,8 +95,9 @@ def takeDigits (txt : Text) : Nat → Nat → Text → Text × Nat
 
 def digitsToNat (t : Text) : Nat := t.foldl (fun acc c => acc * 10 + (c - 48)) 0
 
-/-- the main loop of `setup` (word.rs:465-523); fuel = number of iterations allowed -/
-def setupLoop (txt : Text) : Nat → Nat → Syll → List Syll → Res (Syll × List Syll)
+/-- the main loop of `setup` (word.rs:465-523); fuel = number of iterations allowed.  `fill` is `fill_segments`
+    (with whatever deromanisers are in force). -/
+def setupLoopWith (fill : Text → Nat → Syll → Res (Syll × Nat)) (txt : Text) : Nat → Nat → Syll → List Syll → Res (Syll × List Syll)
   | 0, i, sy, acc => if i < txt.length then .outOfFuel "setup" else .ok (sy, acc)
   | fuel + 1, i, sy, acc =>
     match txt[i]? with
@@ -104,23 +105,25 @@ def setupLoop (txt : Text) : Nat → Nat → Syll → List Syll → Res (Syll ×
     | some c =>
       if c = 0x2CC || c = 0x2C8 then
         let acc' := if sy.segs.isEmpty then acc else acc ++ [sy]
-        setupLoop txt fuel (i + 1) { segs := [], stress := if c = 0x2CC then .secondary else .primary, tone := 0 } acc'
+        setupLoopWith fill txt fuel (i + 1) { segs := [], stress := if c = 0x2CC then .secondary else .primary, tone := 0 } acc'
       else if c = 0x2E || Text.isAsciiDigit c then
-        if sy.segs.isEmpty then setupLoop txt fuel (i + 1) sy acc
+        if sy.segs.isEmpty then setupLoopWith fill txt fuel (i + 1) sy acc
         else if Text.isAsciiDigit c then
           let (digits, j) := takeDigits txt txt.length i []
           let nz := digits.filter (· ≠ 48)
           if nz.length > 4 then .err "ToneTooBig"
-          else setupLoop txt fuel j { segs := [], stress := .unstressed, tone := 0 } (acc ++ [{ sy with tone := digitsToNat nz }])
-        else setupLoop txt fuel (i + 1) { segs := [], stress := .unstressed, tone := 0 } (acc ++ [sy])
+          else setupLoopWith fill txt fuel j { segs := [], stress := .unstressed, tone := 0 } (acc ++ [{ sy with tone := digitsToNat nz }])
+        else setupLoopWith fill txt fuel (i + 1) { segs := [], stress := .unstressed, tone := 0 } (acc ++ [sy])
       else if c = 0x2D0 then
         match sy.segs.getLast? with
         | none => .err "NoSegmentBeforeColon"
-        | some s => setupLoop txt fuel (i + 1) { sy with segs := sy.segs ++ [s] } acc
+        | some s => setupLoopWith fill txt fuel (i + 1) { sy with segs := sy.segs ++ [s] } acc
       else
-        match fillSegments txt i sy with
-        | .ok (sy', j) => setupLoop txt fuel j sy' acc
+        match fill txt i sy with
+        | .ok (sy', j) => setupLoopWith fill txt fuel j sy' acc
         | .err e => .err e | .panic p => .panic p | .outOfFuel p => .outOfFuel p
+
+def setupLoop : Text → Nat → Nat → Syll → List Syll → Res (Syll × List Syll) := setupLoopWith fillSegments
 
 /-- the string rewrites of `Word::new` (word.rs:118-128) -/
 def respell (t : Text) : Text :=
@@ -130,11 +133,11 @@ def americanistIn (t : Text) : Text :=
   [([0xA2], [0x74, 0x361, 0x73]), ([0x19B], [0x74, 0x361, 0x26C]), ([0x3BB], [0x64, 0x361, 0x26E]), ([0x142], [0x26C]), ([0xF1], [0x272])].foldl
     (fun acc (p, r) => Text.replaceAll p r acc) t
 
-/-- `Word::new(text, &[])` -/
-def parseWord (text : Text) : Res Word :=
+/-- `Word::new(text, aliases)` -/
+def parseWordWith (fill : Text → Nat → Syll → Res (Syll × Nat)) (text : Text) : Res Word :=
   let tNorm := respell text
   let tAmer := americanistIn tNorm
-  match setupLoop tAmer (tAmer.length + 1) 0 { segs := [] } [] with
+  match setupLoopWith fill tAmer (tAmer.length + 1) 0 { segs := [] } [] with
   | .ok (sy, acc) =>
     if sy.segs.isEmpty then
       if sy.tone ≠ 0 || sy.stress ≠ .unstressed then
@@ -143,6 +146,9 @@ def parseWord (text : Text) : Res Word :=
       else .ok { sylls := acc, americanist := tAmer ≠ tNorm }
     else .ok { sylls := acc ++ [sy], americanist := tAmer ≠ tNorm }
   | .err e => .err e | .panic p => .panic p | .outOfFuel p => .outOfFuel p
+
+/-- `Word::new(text, &[])` -/
+def parseWord : Text → Res Word := parseWordWith fillSegments
 
 /-- what `run` does to one word: `Word::new(normalise(w), &[])` -/
 def parseInput (text : Text) : Res Word := parseWord (normalise text)
